@@ -44,6 +44,8 @@ def new_nc(ctx, policy, extra_summaries=None, **kw):
         summ.update(extra_summaries(dom) if callable(extra_summaries) else extra_summaries)
     it = Interp(ctx.program, dom, chooser=dec, summaries=summ, **kw)
     dom._interp = it
+    from qstatic.scenario import default_choice
+    it.default_chooser = default_choice
     return it, dom, dec
 
 
